@@ -490,6 +490,7 @@ def c03_rf11(run):
     rf_x86.rf104(run)
     rf_x86.rf124(run)
     rf_proto.rf165(run)
+    rf_iface.rf177(run)
     rf_iface.rf132(run)
     rf_iface.rf147(run)
     rf_iface.rf151(run)
